@@ -141,7 +141,7 @@ func c07RunClass(cls string) string {
 // the model tells a converter's error from "no task left"; from outside both are ordinary errors
 func c07ModelRunClass(m string) string {
 	switch m {
-	case "typeErr", "stuck":
+	case "typeErr", "stuck", "badPick":
 		return "err"
 	}
 	return m
